@@ -114,7 +114,8 @@ def run(tier, seed):
         ep = -1 if k in ("TS", "TE") else rng.randint(cfg["startEp"], cfg["startEp"] + 2)
         b = rng.randint(0, 1) if k in ("BS", "BE") else -1
         rz = ("RZ", k, ep, b, rng.randint(1, len(cfg["cbs"])))
-        plan.discard(rz[1:])          # the specification's environment does one thing per dispatch: request or raise
+        # the specification's environment does one thing per dispatch: a stop request (by one callback) or a raise
+        plan = {p for p in plan if p[:3] != rz[1:4]}
         plan.add(rz)
         real1 = trainrun.real_run(cfg, plan=plan, seed=rng.randrange(10 ** 6), k=rng.randint(0, 2),
                                   time_flag=rng.random() < 0.3)
